@@ -1,28 +1,36 @@
 (* Run/JudgeC04.v — case type and judge for the C04 correspondence run (threshold RDP, rdp.rdp). *)
 From Coq Require Import ZArith List Arith Bool PrimFloat.
-From Knee Require Import Num NumFloat NpList Model.Mapping Model.Rdp Run.RdpTables.
+From Knee Require Import Num NumFloat NpList Model.Mapping Model.Rdp Model.RdpCost Run.RdpTables.
+From Knee Require Export Model.RdpCost.
 Import ListNotations.
 
 Inductive case :=
-  (* rdp.rdp(points, t, distance, cost) on n points returned out = (reduced, removed); None = raised / did not
-     return within the time limit / returned something that is not a pair of integer arrays.
-     dt / ct: the library's own distance / cost primitives on sub-arrays. *)
-  | CRdp (n : nat) (r2 : bool) (t : float) (dt : dtab) (ct : ctab) (out : option (list nat * list row)).
+  (* rdp.rdp(points, t, distance, cost) on the n points pts returned out = (reduced, removed); None = raised / did not
+     return within the time limit / returned something that is not a pair of non-negative integer arrays.
+     dt: the configured distance primitive on sub-arrays (oracle).  ct: what rdp.compute_cost_coef(points[l:r],
+     lf.linear_fit_points(points[l:r]), cost) returns — the model's segment cost only for rmsle; for the other four
+     metrics the model derives the cost from pts (Model/RdpCost.v) and ct is compared with it (conjunct 6). *)
+  | CRdp (n : nat) (m : metric) (t : float) (pts : list (float * float)) (dt : dtab) (ct : ctab)
+         (out : option (list nat * list row)).
 
-Definition run_model (n : nat) (r2 : bool) (t : float) (dt : dtab) (ct : ctab) :=
-  @rdp FloatNum (dist_of dt) (cost_from ct) r2 t n.
+Definition run_model (n : nat) (m : metric) (t : float) (pts : list (float * float)) (dt : dtab) (ct : ctab) :=
+  @rdp FloatNum (dist_of dt) (segcost_of m pts ct) (metric_is_r2 m) t n.
 
-(* result code = 100 * agree + holds   (AGENT_GUIDE "Judge and result codes") *)
+(* result code = 100 * agree + holds   (AGENT_GUIDE "Judge and result codes")
+   holds: C04_code (1 no return, 2 not well-formed, 3 removed table, 4 a kept segment does not fit, 5 not explained),
+          6 the library's composite segment cost differs from the cost derived from the points *)
 Definition judge (c : case) : Z :=
   match c with
-  | CRdp n r2 t dt ct out =>
-      let dom := (2 <=? n) && negb (@curved FloatNum r2 t (@trivial_cost FloatNum r2)) && shape_ok dt in
+  | CRdp n m t pts dt ct out =>
+      let r2 := metric_is_r2 m in
+      let segcost := segcost_of m pts ct in
+      let dom := (2 <=? n) && (length pts =? n) && negb (@curved FloatNum r2 t (@trivial_cost FloatNum r2)) && shape_ok dt in
       if negb dom then 600%Z else
       let agree :=
-        match run_model n r2 t dt ct with
+        match run_model n m t pts dt ct with
         | None => 1%Z
         | Some (red, rem, vis) =>
-            let '(ck, dk) := @keys_needed FloatNum (cost_from ct) r2 t vis in
+            let '(ck, dk) := @keys_needed FloatNum segcost r2 t vis in
             let out_keys := match out with
                             | Some (ored, _) => forallb (fun p => (snd p - fst p <? 2) || has ct (fst p, snd p + 1)) (pairs ored)
                             | None => true end in
@@ -32,10 +40,13 @@ Definition judge (c : case) : Z :=
                  | None => 1%Z
                  end
         end in
-      let holds := Z.of_nat (@C04_code FloatNum (dist_of dt) (cost_from ct) r2 t n out) in
+      let holds := match @C04_code FloatNum (dist_of dt) segcost r2 t n out with
+                   | O => if cost_match m pts ct then 0%Z else 6%Z
+                   | c => Z.of_nat c
+                   end in
       (100 * agree + holds)%Z
   end.
 
 (* the model's own outputs, for replay files: (reduced, removed, popped ranges) *)
 Definition show (c : case) :=
-  match c with CRdp n r2 t dt ct out => run_model n r2 t dt ct end.
+  match c with CRdp n m t pts dt ct out => run_model n m t pts dt ct end.
